@@ -26,6 +26,7 @@ pub fn write(dir: &Path) -> usize {
                 sizes: vec![1 + rng.below(400), 1 + rng.below(70_000)],
                 styles: vec![ChunkStyle { hex: (i % 3) as u8, zeros: (i % 5) as u8, ext: (i % 4) as u8 }],
                 last: ChunkStyle { hex: 0, zeros: (i % 2) as u8, ext: 0 },
+                trailers: 0,
             }),
         };
         let headers: Vec<(String, Vec<u8>)> = match i % 5 {
